@@ -337,6 +337,24 @@ fn main() {
         for p in ["{*,lib*}-[0-9]*", "{?,a}x", "{a,b}/*", "{[.a],b}x", "{*,x}", "{.*,x}-1", "{?*,x}-1", "{a/?,b}b", "{[!a],a}profile-1.0"] {
             pats.push(p.to_string());
         }
+        // a group without a comma is one alternative, whatever its text looks like in a shell
+        // ("{9..13}" is the text "9..13", not a sequence)
+        for p in ["python3{9..13}-[0-9]*", "{1..3}", "p{a..c}-1", "p-{1..3}", "{01..10}", "p{9..13,x}-1", "p{..}-1", "{a..c}{1..2}"] {
+            pats.push(p.to_string());
+        }
+        // groups of 63 / 64 / 65 / 100 alternatives with an operator in front of the group, inside
+        // every alternative, or behind it
+        for n in [63usize, 64, 65, 100] {
+            let nums: Vec<String> = (1..=n).map(|i| i.to_string()).collect();
+            pats.push(format!("pkg>={{{}}}", nums.join(",")));
+            pats.push(format!("pkg<{{{}}}", nums.join(",")));
+            let libs: Vec<String> = (0..n).map(|i| format!("lib{}>1", i)).collect();
+            pats.push(format!("{{{}}}", libs.join(",")));
+            let plain: Vec<String> = (0..n).map(|i| format!("lib{}", i)).collect();
+            pats.push(format!("{{{}}}>=1", plain.join(",")));
+            pats.push(format!("{{{}}}-[0-9]*", plain.join(",")));
+            pats.push(format!("{{{}}}-1", plain.join(",")));
+        }
         // fixed text on both sides of a group whose alternatives carry the operator
         for p in ["pkg{>=1,<0}.5", "p{>=1,<1}.0", "p{>,<}1", "p{>=,<}1.0", "py-foo{>=1,<0}.5", "p{-1,>=2}.0", "{p,q}{>=1,<1}.5"] {
             pats.push(p.to_string());
@@ -380,7 +398,7 @@ fn main() {
             "foo-1", "foo-,", "a]*", "bar-1", "p,q", "p[q", "p[", "]q", "r", "a", "b]", "[a", "p-1", "p-[1", "2]*", "p-2]*", "p-x", "mysql-8.0-rc1", "mariadb-1-", "mysql-8.0", "py-1-2", "py27-3.0-1",
             "pkg-2.0", "pkg-0.2", "pkg-1", "p-2.0", "p-1.0", "p-0.5", "p-1", "py-foo-1.0", "py-foo-2.5", "py-foo-2.4.3", "py-foo-6", "py27-foo-3", "py27-foo-6", "py30-foo-1", "o3-4", "o3-1",
             "py-xyz-foo-1", "py-opt3-foo-1", "py-opt16-foo-1", "py-xyz-foo-2", "py-x-foo-1", "py-foo-1", "py-foo-2", "py-foo-0", "py-fooopt3", "opt3", "py-yaz-foo-1",
-            ".profile-1.0", ".x", "a/.b", ".", ".-1", "..x", "lib.-1", ".x-1", "a/.", "/.x", "pab-1", "paaaa-1", "paaaaaaaaaaaa-1", "paaaaaaaaaaaaaaaaaa-1", "paaaaaaaaaaaaaaaaaaaa-1", "pabababab-1", "paaaaaaaaaa-1", "pb-1", "pa-1", "pbbbba-1", "pc-1", "pac-1", "pacccc-1"].iter().map(|s| s.to_string()).collect();
+            "python311-3.11.4", "python39..13-1.0", "python39-1", "1..3", "2", "pa..c-1", "pb-1", "p-1..3", "p-2", "01..10", "05", "p9..13-1", "px-1", "p..-1", "a..c1..2", "b1", "pkg-70", "pkg-0.5", "pkg-100", "pkg-64", "lib3>1", "lib3-2", "lib3-1", "lib70-2", "lib63-1.5", "lib64-1", "lib99-0", ".profile-1.0", ".x", "a/.b", ".", ".-1", "..x", "lib.-1", ".x-1", "a/.", "/.x", "pab-1", "paaaa-1", "paaaaaaaaaaaa-1", "paaaaaaaaaaaaaaaaaa-1", "paaaaaaaaaaaaaaaaaaaa-1", "pabababab-1", "paaaaaaaaaa-1", "pb-1", "pa-1", "pbbbba-1", "pc-1", "pac-1", "pacccc-1"].iter().map(|s| s.to_string()).collect();
         let mut names = names;
         for (a, b, _) in mc_core::chars::HASH_COLLISIONS {
             names.push(format!("{}-1", a));
